@@ -1,7 +1,7 @@
-import SeaQ.Props.C20
+import SeaQ.Model.AutoTrait
 /-! Driver glue for C20: which types the model predicts NOT Send + Sync. -/
 namespace Driver.Types
-open SeaQ.Gen.Types SeaQ.Props.C20
+open SeaQ.Gen.Types SeaQ.AutoTrait
 
 def run (s : String) : String :=
   let ts := s.trimAscii.toString == "1"
